@@ -94,6 +94,7 @@ pub mod once {
         async fn get(&self, call: u32, steps: u32) -> Result<u64, CallError>;
         async fn add(&mut self, call: u32, k: u64, steps: u32) -> Result<u64, CallError>;
         async fn take(self, call: u32, steps: u32) -> Result<u64, CallError>;
+        async fn take_hang(self, call: u32) -> Result<u64, CallError>;
     }
 }
 
@@ -164,6 +165,11 @@ impl once::Taker for Obj {
         g.end("take", self.val, self.val, self.val);
         Ok(self.val)
     }
+    async fn take_hang(self, call: u32) -> Result<u64, CallError> {
+        let _g = ExecGuard::start(call, "take_hang", self.val);
+        futures::future::pending::<()>().await;
+        Ok(0)
+    }
 }
 
 static NEXT_CALL: AtomicU32 = AtomicU32::new(1);
@@ -198,6 +204,8 @@ pub struct RtcOpts {
     pub undecodable: bool,
     /// 0 by-value server, 1 RefMut, 2 SharedMut (spawn), 3 SharedMut (no spawn), 4 random
     pub flavour: u64,
+    /// number of separate connections carrying remote clients (endpoints 2, 3, ...); with `cut` all but the last fail
+    pub conns: u64,
 }
 
 /// One client task: a seeded sequence of calls through its own client (clone).
@@ -298,24 +306,28 @@ pub async fn scenario(seed: u64, opts: &RtcOpts) {
     let client = crx.await.expect("client");
     let mut handles: Vec<tokio::task::JoinHandle<()>> = Vec::new();
     let mut links = Vec::new();
-    let mut conn_keep = None;
+    let mut conns_keep = Vec::new();
     let mut conn2_keep = None;
-    let nclients = rng.range(2, 4);
-    let mut remote_clients: Vec<v1::CounterClient> = Vec::new();
+    let nclients = rng.range(2, 4) + if opts.conns > 1 { 2 } else { 0 };
+    // remote clients with the endpoint they live on (2 + index of their connection)
+    let mut remote_clients: Vec<(v1::CounterClient, u64)> = Vec::new();
     let mut v2_client: Option<v2::CounterClient> = None;
     if opts.remote {
-        let mut conn = rem_connect::<v1::CounterClient, ()>(&ca, &cb, seed, 0).await;
-        let k = rng.range(1, 2);
-        for _ in 0..k {
-            let (s, r) = tokio::join!(conn.a_tx.send(client.clone()), conn.b_rx.recv());
-            s.ok().expect("send client");
-            remote_clients.push(r.ok().expect("recv client").expect("client"));
+        for ci in 0..opts.conns.max(1) {
+            let (ca, cb) = if ci == 0 { (ca.clone(), cb.clone()) } else { (upper_cfg(&mut rng), upper_cfg(&mut rng)) };
+            let mut conn = rem_connect::<v1::CounterClient, ()>(&ca, &cb, seed + ci * 1000, ci * 20).await;
+            let k = if opts.conns > 1 { 1 } else { rng.range(1, 2) };
+            for _ in 0..k {
+                let (s, r) = tokio::join!(conn.a_tx.send(client.clone()), conn.b_rx.recv());
+                s.ok().expect("send client");
+                remote_clients.push((r.ok().expect("recv client").expect("client"), 2 + ci));
+            }
+            links.extend(conn.links());
+            conns_keep.push(conn);
         }
-        links.extend(conn.links());
-        conn_keep = Some(conn);
         if opts.undecodable && rng.chance(1, 2) {
             // the same client, received as the client type of the newer trait version
-            let mut conn2 = rem_connect_x::<v1::CounterClient, (), (), v2::CounterClient>(&ca, &cb, seed + 77, 10).await;
+            let mut conn2 = rem_connect_x::<v1::CounterClient, (), (), v2::CounterClient>(&ca, &cb, seed + 77, 100).await;
             let (s, r) = tokio::join!(conn2.a_tx.send(client.clone()), conn2.b_rx.recv());
             s.ok().expect("send client");
             v2_client = Some(r.ok().expect("recv v2 client").expect("v2 client"));
@@ -325,11 +337,12 @@ pub async fn scenario(seed: u64, opts: &RtcOpts) {
     }
     for i in 0..nclients {
         let r = Rng::new(seed * 97 + i);
-        let n = rng.range(2, 4);
-        let use_remote = !remote_clients.is_empty() && rng.chance(1, 2);
+        let n = rng.range(2, 4) + if opts.conns > 1 { 3 } else { 0 };
+        let use_remote = !remote_clients.is_empty() && (rng.chance(1, 2) || (opts.conns > 1 && (i as usize) < remote_clients.len()));
         let (c, ep) = if use_remote {
-            let k = rng.below(remote_clients.len() as u64) as usize;
-            (remote_clients[k].clone(), 2)
+            // with several connections every connection gets at least one client
+            let k = if opts.conns > 1 && (i as usize) < remote_clients.len() { i as usize } else { rng.below(remote_clients.len() as u64) as usize };
+            (remote_clients[k].0.clone(), remote_clients[k].1)
         } else {
             (client.clone(), 1)
         };
@@ -337,15 +350,17 @@ pub async fn scenario(seed: u64, opts: &RtcOpts) {
         handles.push(spawn_d(ep, client_task(c, i + 1, ep, r, n, opts.clone())));
     }
     if let Some(c) = v2_client.take() {
-        tr(json!({"ev": "c_new", "cl": 9, "ep": 2}));
-        handles.push(spawn_d(2, client_task_v2(c, 9, 2, Rng::new(seed * 97 + 9))));
+        tr(json!({"ev": "c_new", "cl": 9, "ep": 9}));
+        handles.push(spawn_d(2, client_task_v2(c, 9, 9, Rng::new(seed * 97 + 9))));
     }
     drop(client);
     drop(remote_clients);
     if opts.cut {
-        if let Some(conn) = &conn_keep {
+        // all connections but the last one fail, one after the other (with a single connection: that one)
+        let ncut = if conns_keep.len() > 1 { conns_keep.len() - 1 } else { conns_keep.len() };
+        for (ci, conn) in conns_keep.iter().take(ncut).enumerate() {
             yields(rng.range(5, 150)).await;
-            tr(json!({"ev": "fault", "kind": "cut"}));
+            tr(json!({"ev": "fault", "kind": "cut", "ep": 2 + ci}));
             for l in [&conn.ab, &conn.ba] {
                 l.set(|st| {
                     st.sink_err = true;
@@ -367,7 +382,7 @@ pub async fn scenario(seed: u64, opts: &RtcOpts) {
     for h in sh {
         h.abort();
     }
-    for conn in conn_keep.into_iter() {
+    for conn in conns_keep.into_iter() {
         conn.pump.abort();
         for c in conn.conn {
             c.abort();
@@ -433,8 +448,15 @@ pub async fn once_scenario(seed: u64, remote: bool) {
         let steps = r.below(5) as u32;
         let cancel = r.chance(1, 4);
         let polls = if cancel { r.range(1, 14) } else { u64::MAX };
-        tr(json!({"ev": "c_call", "call": call, "cl": 1, "ep": ep, "m": "take", "k": 0, "steps": steps, "polls": if polls == u64::MAX { -1 } else { polls as i64 }}));
-        log_ret(call, cancel_after(client.take(call, steps), polls).await, |v| *v);
+        if r.chance(1, 3) {
+            // a by-value method that only ends when its caller gives up
+            let polls = r.range(2, 30);
+            tr(json!({"ev": "c_call", "call": call, "cl": 1, "ep": ep, "m": "take_hang", "k": 0, "steps": 0, "polls": polls}));
+            log_ret(call, cancel_after(client.take_hang(call), polls).await, |v| *v);
+        } else {
+            tr(json!({"ev": "c_call", "call": call, "cl": 1, "ep": ep, "m": "take", "k": 0, "steps": steps, "polls": if polls == u64::MAX { -1 } else { polls as i64 }}));
+            log_ret(call, cancel_after(client.take(call, steps), polls).await, |v| *v);
+        }
         tr(json!({"ev": "c_done", "cl": 1}));
     })];
     let left = wait_tasks(&mut handles, &links, 4000).await;
